@@ -144,6 +144,25 @@ theorem wrapDiff_range (L x : ℚ) (hL : 0 < L) : -(L / 2) ≤ wrapDiff L x ∧ 
   have e : x + L / 2 = (x + L / 2) / L * L := by field_simp
   constructor <;> nlinarith
 
+/-- a difference that already is the minimal image is left alone -/
+theorem wrapDiff_of_mem (L x : ℚ) (hL : 0 < L) (h1 : -(L / 2) ≤ x) (h2 : x < L / 2) : wrapDiff L x = x := by
+  unfold wrapDiff fmod
+  have hfl : ∀ q : ℚ, q.floor = ⌊q⌋ := fun _ => rfl
+  rw [hfl]
+  have h0 : ⌊(x + L / 2) / L⌋ = 0 := by
+    rw [Int.floor_eq_iff]
+    constructor
+    · simp only [Int.cast_zero]; apply div_nonneg <;> linarith
+    · simp only [Int.cast_zero, zero_add]; rw [div_lt_one hL]; linarith
+  rw [h0]; simp
+
+/-- **Taking the minimal image twice is taking it once** — this is why the repair of D12 (`polar_coordinates` wraps the difference along the
+symmetry axis of a periodic cylinder itself, after py-pde's `difference_vector`) stays right when the dependency is repaired and wraps it too,
+and why it is harmless on every grid on which py-pde already wrapped that component -/
+theorem wrapDiff_idem (L x : ℚ) (hL : 0 < L) : wrapDiff L (wrapDiff L x) = wrapDiff L x := by
+  obtain ⟨h1, h2⟩ := wrapDiff_range L x hL
+  exact wrapDiff_of_mem L _ hL h1 h2
+
 /-- and differs from the plain difference by a whole number of periods -/
 theorem wrapDiff_congr (L x : ℚ) (hL : L ≠ 0) : ∃ k : ℤ, wrapDiff L x = x - k * L := by
   refine ⟨((x + L / 2) / L).floor, ?_⟩
